@@ -154,6 +154,13 @@ fn offsets_of(text: &str, tt: &TokenTable, r: &mut Rng, cap: usize) -> Vec<u32> 
             offs.insert(i + c.len_utf8());
         }
     }
+    // one offset strictly inside every word-like token of two or more bytes (a cursor in the
+    // middle of an identifier: replacement ranges must still cover the whole token)
+    for &(a, b, _) in &tt.tokens {
+        if b - a >= 2 && text.as_bytes()[a].is_ascii_alphanumeric() && text.is_char_boundary(a + 1) {
+            offs.insert(a + 1);
+        }
+    }
     let mut v: Vec<u32> = offs.into_iter().map(|x| x as u32).collect();
     if v.len() > cap {
         r.shuffle(&mut v);
